@@ -5,6 +5,7 @@ prorated rainfall increments) evaluated for every period of every observed call 
 dutils.var2h; metamorphic replay of each series under 4 storage units x 3 time
 zones."""
 import math
+import os
 import warnings
 from fractions import Fraction
 
@@ -37,7 +38,8 @@ OBLIGATIONS = {"period:valid": 300, "period:missing": 100, "period:gap-missing":
                "stamp-on-boundary": 50, "duplicate-stamps": 20, "rainfall": 50,
                "P=1800": 50, "P=3600": 50, "unit:s": 20, "unit:ms": 20, "unit:us": 20,
                "unit:ns": 20, "tz:utc": 20, "tz:+10": 20, "era:outside-int32-seconds": 20,
-               "era:across-epoch": 3, "kernel:prefilled-buffer": 50}
+               "era:across-epoch": 3, "kernel:prefilled-buffer": 50,
+               "era:beyond-nanosecond-range": 5, "process-tz:non-utc": 50}
 
 T0 = 946684800      # 2000-01-01 00:00:00 UTC
 
@@ -55,7 +57,9 @@ def gen_series(rng, it, tier):
     # eras: most series around 2000; others before / across -2^31 s (Dec 1901), across
     # the epoch, across 2^31 s (Jan 2038) and far beyond
     era = [T0, T0, T0, -2 ** 31 - 40 * 86400, -2 ** 31 - 7200, -3 * 3600, 2 ** 31 - 7200,
-           2 ** 31 + 30 * 86400, 4102444800, 8836000000, -2524521600][it % 11]
+           2 ** 31 + 30 * 86400, 4102444800, 8836000000, -2524521600,
+           10413792000, -11676096000][it % 13]     # ... 2300 and 1600: beyond what a
+    # nanosecond index can hold (only the s / ms / us storage units reach them)
     era = (era // 3600) * 3600
     t = era + (int(rng.integers(0, 400)) * 86400 if era == T0 else 0) + \
         int(rng.integers(0, 24 if era == T0 else 2)) * 3600 + first
@@ -147,12 +151,30 @@ def build_series(stamps, vals, unit, tz, vdtype="f8"):
     return pd.Series(v, index=idx, name="flow")
 
 
-def call(se, P, maxgap, rainfall):
+PROCESS_TZ = [None, "America/New_York", None, "Australia/Brisbane", None, "Asia/Kolkata"]
+
+
+def call(se, P, maxgap, rainfall, process_tz=None):
+    """process_tz: time zone of the *process* (TZ environment variable) during the call
+    - the index carries its own time reference, the machine's zone is irrelevant"""
     from hydrodiy.data import dutils
-    with warnings.catch_warnings():
-        warnings.simplefilter("ignore")
-        return dutils.var2h(se, nbsec_per_period=P, maxgapsec=maxgap,
-                            rainfall=rainfall)
+    import time as _time
+    old = os.environ.get("TZ")
+    if process_tz:
+        os.environ["TZ"] = process_tz
+        _time.tzset()
+    try:
+        with warnings.catch_warnings():
+            warnings.simplefilter("ignore")
+            return dutils.var2h(se, nbsec_per_period=P, maxgapsec=maxgap,
+                                rainfall=rainfall)
+    finally:
+        if process_tz:
+            if old is None:
+                os.environ.pop("TZ", None)
+            else:
+                os.environ["TZ"] = old
+            _time.tzset()
 
 
 def run_case(ctx, case):
@@ -176,6 +198,10 @@ def run_case(ctx, case):
         ctx.tag("stamp-on-boundary")
     base = None
     variants = case.get("variants") or [["ns", "naive"]]
+    NSMIN, NSMAX = -9223372036, 9223372036
+    if stamps[0] < NSMIN or stamps[-1] + 7200 > NSMAX:
+        ctx.tag("era:beyond-nanosecond-range")
+        variants = [v_ for v_ in variants if v_[0] != "ns"] or [["us", "naive"]]
     for unit, tz in variants:
         ctx.tag("unit:" + unit)
         if tz != "naive":
@@ -183,8 +209,11 @@ def run_case(ctx, case):
         se = build_series(stamps, vals, unit, tz,
                           ["f8", "f4", "i8"][(len(stamps) + len(unit)) % 3])
         ctx.api("var2h")
+        ptz = PROCESS_TZ[(len(stamps) + len(variants)) % len(PROCESS_TZ)]
+        if ptz:
+            ctx.tag("process-tz:non-utc")
         try:
-            out = call(se, P, maxgap, rainfall)
+            out = call(se, P, maxgap, rainfall, ptz)
         except Exception as e:
             ctx.check("var2h.runs", False, f"var2h|raises|unit={unit}", case,
                       {"exc": repr(e), "unit": unit, "tz": tz})
